@@ -348,7 +348,7 @@ theorem genCond_nodup (c : Cond) : ∀ (g : GState) (negate : Bool) (label : Lbl
     by_cases h : g.flags = some v <;> cases op <;> simp [h, labels_loadRef]
   have hc : ∀ g v right op label, (labels (cmpTest g v right op label).1).Nodup := by
     intro g v right op label
-    have hp : labels (cmpPre v right) = [] := by cases v <;> rfl
+    have hp : labels (cmpPre v right) = [] := labels_cmpPre v right
     simp [cmpTest, branchInstr_nodup, hp]
   induction c with
   | cmp op a b =>
@@ -356,6 +356,9 @@ theorem genCond_nodup (c : Cond) : ∀ (g : GState) (negate : Bool) (label : Lbl
     simp only [genCond, genCondEx]
     split
     · simp
+    · split
+      · exact hz _ _ _ _
+      · exact hc _ _ _ _ _
     · split
       · exact hz _ _ _ _
       · exact hc _ _ _ _ _
@@ -571,22 +574,22 @@ theorem gen_labels_nodup (st : SStmt) : ∀ g : GState, (labels (gen g st).1).No
   | «for» i c u b ihb =>
     intro g
     simp only [gen, genFlat]
-    rcases hc1 : genCond { g with cFor := g.cFor + 1, flags := flagsAfter g.flags i } c true ⟨.forend, g.cFor + 1⟩ with ⟨c1, g2⟩
+    rcases hc1 : genCond { g with cFor := g.cFor + 1, flags := flagsAfter (zpL g.abs) g.flags i } c true ⟨.forend, g.cFor + 1⟩ with ⟨c1, g2⟩
     rcases hcb : gen { g2 with flags := none } b with ⟨cb, g3⟩
-    rcases hc2 : genCond { g3 with flags := flagsAfter none u } c false ⟨.for_, g.cFor + 1⟩ with ⟨c2, g5⟩
-    have hf1 : Fresh { g with cFor := g.cFor + 1, flags := flagsAfter g.flags i } (c1, g2) := hc1 ▸ genCond_fresh ..
+    rcases hc2 : genCond { g3 with flags := flagsAfter (zpL g3.abs) none u } c false ⟨.for_, g.cFor + 1⟩ with ⟨c2, g5⟩
+    have hf1 : Fresh { g with cFor := g.cFor + 1, flags := flagsAfter (zpL g.abs) g.flags i } (c1, g2) := hc1 ▸ genCond_fresh ..
     have hfb : Fresh g2 (cb, g3) := by
       have := gen_fresh b { g2 with flags := none }
       rw [hcb, fresh_flags_left] at this
       exact this
     have hf2 : Fresh g3 (c2, g5) := by
-      have : Fresh { g3 with flags := flagsAfter none u } (c2, g5) := hc2 ▸ genCond_fresh ..
+      have : Fresh { g3 with flags := flagsAfter (zpL g3.abs) none u } (c2, g5) := hc2 ▸ genCond_fresh ..
       rwa [fresh_flags_left] at this
     have n1 : (labels c1).Nodup := by
-      have := genCond_nodup c { g with cFor := g.cFor + 1, flags := flagsAfter g.flags i } true ⟨.forend, g.cFor + 1⟩; rwa [hc1] at this
+      have := genCond_nodup c { g with cFor := g.cFor + 1, flags := flagsAfter (zpL g.abs) g.flags i } true ⟨.forend, g.cFor + 1⟩; rwa [hc1] at this
     have nb : (labels cb).Nodup := by have := ihb { g2 with flags := none }; rwa [hcb] at this
     have n2 : (labels c2).Nodup := by
-      have := genCond_nodup c { g3 with flags := flagsAfter none u } false ⟨.for_, g.cFor + 1⟩; rwa [hc2] at this
+      have := genCond_nodup c { g3 with flags := flagsAfter (zpL g3.abs) none u } false ⟨.for_, g.cFor + 1⟩; rwa [hc2] at this
     have k1 := le_ctr hf1 .cFor
     have k2 := le_ctr hfb .cFor
     simp [GState.ctr] at k1 k2
@@ -599,7 +602,7 @@ theorem gen_labels_nodup (st : SStmt) : ∀ g : GState, (labels (gen g st).1).No
       · exact not_in_fresh hf1 (by simp [hk, hn, GState.ctr]) hin
       · exact not_in_fresh hfb (by simp [hk, hn, GState.ctr]; omega) hin
       · exact not_in_fresh hf2 (by simp [hk, hn, GState.ctr]; omega) hin
-    have hperm : (labels (flatLines i ++ c1 ++ [GLine.lab ⟨.for_, g.cFor + 1⟩] ++ cb ++ [GLine.lab ⟨.forupdate, g.cFor + 1⟩] ++ flatLines u ++ c2
+    have hperm : (labels (flatLines (zpL g.abs) i ++ c1 ++ [GLine.lab ⟨.for_, g.cFor + 1⟩] ++ cb ++ [GLine.lab ⟨.forupdate, g.cFor + 1⟩] ++ flatLines (zpL g3.abs) u ++ c2
           ++ [GLine.lab ⟨.forend, g.cFor + 1⟩])).Perm
         ((⟨.for_, g.cFor + 1⟩ : Lbl) :: ⟨.forupdate, g.cFor + 1⟩ :: ⟨.forend, g.cFor + 1⟩ :: labels (c1 ++ cb ++ c2)) := by
       simp only [labels_append, labels_lab, labels_nil, labels_flatLines, List.nil_append, List.append_nil]
@@ -659,9 +662,9 @@ def targets : List GLine → List Lbl
   | nil => rfl
   | cons x xs ih => cases x <;> simp [targets, ih]
 
-theorem targets_flatLines (s : RStmt) : targets (flatLines s) = [] := by
+theorem targets_flatLines (zp : String → Bool) (s : RStmt) : targets (flatLines zp s) = [] := by
   unfold flatLines
-  generalize rtemplate (none : Option Atom) (fun a => some a) s = t
+  generalize rtemplate (none : Option Atom) (fun a => some a) zp s = t
   induction t with
   | nil => rfl
   | cons x xs ih => simpa using ih
@@ -682,8 +685,9 @@ theorem genCond_targets (c : Cond) : ∀ (g : GState) (negate : Bool) (label : L
     by_cases h : g.flags = some v <;> cases op <;> simp [h, htl, labels_loadRef] at hl ⊢ <;> exact hl
   have hc : ∀ g v right op label, ∀ l ∈ targets (cmpTest g v right op label).1, l = label ∨ l ∈ labels (cmpTest g v right op label).1 := by
     intro g v right op label l hl
-    have hp : labels (cmpPre v right) = [] := by cases v <;> rfl
-    have ht : targets (cmpPre v right) = [] := by cases v <;> rfl
+    have hp : labels (cmpPre v right) = [] := labels_cmpPre v right
+    have ht : targets (cmpPre v right) = [] := by
+      cases v <;> first | rfl | (cases right <;> first | rfl | (rename_i i; cases i <;> rfl))
     simp [cmpTest, hp, ht] at hl ⊢
     exact hb _ _ _ l hl
   induction c with
@@ -692,6 +696,9 @@ theorem genCond_targets (c : Cond) : ∀ (g : GState) (negate : Bool) (label : L
     simp only [genCond, genCondEx]
     split
     · intro l hl; simp at hl
+    · split
+      · exact hz _ _ _ _
+      · exact hc _ _ _ _ _
     · split
       · exact hz _ _ _ _
       · exact hc _ _ _ _ _
@@ -831,14 +838,14 @@ theorem gen_targets_defined (st : SStmt) : ∀ g : GState, ∀ l ∈ targets (ge
   | «for» i c u b ihb =>
     intro g l hl
     simp only [gen, genFlat] at hl ⊢
-    have h1 := genCond_targets c { g with cFor := g.cFor + 1, flags := flagsAfter g.flags i } true ⟨.forend, g.cFor + 1⟩
-    rcases hc1 : genCond { g with cFor := g.cFor + 1, flags := flagsAfter g.flags i } c true ⟨.forend, g.cFor + 1⟩ with ⟨c1, g2⟩
+    have h1 := genCond_targets c { g with cFor := g.cFor + 1, flags := flagsAfter (zpL g.abs) g.flags i } true ⟨.forend, g.cFor + 1⟩
+    rcases hc1 : genCond { g with cFor := g.cFor + 1, flags := flagsAfter (zpL g.abs) g.flags i } c true ⟨.forend, g.cFor + 1⟩ with ⟨c1, g2⟩
     rw [hc1] at h1 hl
     have hb := ihb { g2 with flags := none }
     rcases hcb : gen { g2 with flags := none } b with ⟨cb, g3⟩
     rw [hcb] at hb hl
-    have h2 := genCond_targets c { g3 with flags := flagsAfter none u } false ⟨.for_, g.cFor + 1⟩
-    rcases hc2 : genCond { g3 with flags := flagsAfter none u } c false ⟨.for_, g.cFor + 1⟩ with ⟨c2, g5⟩
+    have h2 := genCond_targets c { g3 with flags := flagsAfter (zpL g3.abs) none u } false ⟨.for_, g.cFor + 1⟩
+    rcases hc2 : genCond { g3 with flags := flagsAfter (zpL g3.abs) none u } c false ⟨.for_, g.cFor + 1⟩ with ⟨c2, g5⟩
     rw [hc2] at h2 hl
     simp [targets_flatLines, labels_flatLines] at hl ⊢
     rcases hl with hl | hl | hl
